@@ -407,6 +407,14 @@ func genC13(tier string, seed uint64, emit0 func(string)) {
 			interleavings([][]sysStep{p0, p1}, func(s []sysStep) { emit(sysLine(2, nil, "r b:76", s)) })
 		}
 	}
+	// database indexes at the borders of 32 and 64 bits: the database a handler sees is the one that was selected (an
+	// index that does not fit is an error and changes nothing), and never another connection's
+	for _, big := range []string{"2147483647", "2147483648", "4294967296", "4294967297", "-1", "-2147483648", "-2147483649", "-4294967295", "9223372036854775807",
+		"-9223372036854775808", "9223372036854775808", "18446744073709551617", "1e3", "0x10"} {
+		selBig := mkStep(0, nil, []byte("SELECT"), []byte(big))
+		emit(sysLine(2, nil, "r b:76", []sysStep{sel(1, 1), data(1), selBig, data(0), data(0), data(1), sel(1, 0), data(1), data(0)}))
+		emit(sysLine(2, nil, "r b:76", []sysStep{sel(0, 5), selBig, data(0), mkStep(0, nil, []byte("AUTH"), []byte("x")), data(0), data(1)}))
+	}
 	// one connection reconfigures the server (CONFIG SET, also requirepass) while others are connected and have not sent
 	// anything yet: what a connection may do is decided by its own history, not by what another one configured meanwhile
 	for _, param := range []string{"requirepass", "port", "x"} {
